@@ -7,12 +7,13 @@ BOOK_NOTE = ('Assumed: soundness of Verus/Z3; vstd specifications of Vec/BTreeMa
              'validity preconditions of the property statement (ids exist, volumes >= 1, prices in range, totals < 2^32, clock monotone, clock discipline). Machine integers are NOT idealised. '
              'save_json/load_json, Display impls and get_orders are not under contract.')
 PY_NOTE = BOOK_NOTE + ' Additionally assumed (stand-ins, listed in the evidence): PyO3 types are opaque; to_pyarray yields the slice elements in order; PyValueError::new_err / OrderError::to_string are opaque; Option::filter keeps the value iff the predicate holds; Xoroshiro128StarStar is an opaque RngCore.'
+KANI_NOTE = 'Assumed: soundness of Kani 0.68 / CBMC 6.11; every RngCore output is arbitrary (SymRng) and every Distribution sample an arbitrary finite f64 (AnyDist), which covers all generators and distributions; stubs = the contracts of Env::place_order / cancel_order / order_status / OrderBook::mid_price (proved in the Verus units); f64::tanh modelled as sign-preserving, |y| <= 1, |y| >= 0.99 for |x| >= 3; termination is not proved by Kani; bounded harnesses are labelled bounded and never counted as proved.'
 CHECKS = {
     'C01': ('proof', 'Verus: both match loops are proved equal to a recursive reference matcher (price-time priority, fill at the resting price, min volume) for an arbitrary well-formed book; '
             'place/create_and_place/process_event/cancel/modify carry `view(new) == ref_op(view(old))` postconditions; unbounded in history length, prices, volumes, LEVELS.',
             'Verus function contracts + loop invariants on code extracted from /repo each run; refinement of a recursive reference matcher', BOOK_NOTE),
     'C02': ('proof', 'Verus: representation invariant (priority map <-> resting set, per-level volume/count, side totals) re-established by every mutating function; every getter has a postcondition '
-            'equating it with the value recomputed from the order list; the uncrossed clause is preserved while trading is on; mid_price is panic-free for every book (after the fix: commit).',
+            'equating it with the value recomputed from the order list; the uncrossed clause is preserved while trading is on; mid_price is panic-free for every book in Verus, and Kani proves on the real method (bid_ask stubbed by its contract) that for all 2^64 pairs of touch prices - crossed ones included - it neither panics nor deviates from (bid+ask)/2 (after fix 42c41f8).',
             'Verus data-structure invariant + getter postconditions against an abstract view', BOOK_NOTE),
     'C03': ('proof', 'Verus: match_orders appends exactly one trade record with the passive order\'s price/side, book time, min volume and both ids; all matching paths carry a ledger postcondition '
             '(trades only appended, per-order volume lost == sum of its logged trades, trade_vol delta == sum of appended volumes); all other functions leave trades untouched.',
@@ -57,6 +58,14 @@ CHECKS = {
             'the struct is expanded by the working tree\'s derive macro (rustc -Zunpretty=expanded), the generated update body is cut out verbatim and verified: with members of UNINTERPRETED behaviour the set '
             'equals the left-to-right composition over the declared fields, each once, same env and rng; the generated signature is compared with the trait method.',
             'Verus on the macro expansion with uninterpreted member contracts; finite family of shapes', 'Assumed: Verus/Z3; rustc expansion output is the code that is compiled; syn/quote internals not verified; the shapes are a finite family (proof per shape, not for all shapes).'),
+    'C16': ('proof', 'Kani on the real crates. COMPLETE (loop-free, full-domain, counted as proved): the four limit-order helpers (single- and multi-asset) with EVERY price distribution and EVERY generator output - '
+            'buy price on the grid and <= the observed mid, sell price >= the mid and on the grid unless clamped, configured volume / trader / asset; thorough tier adds the two rounding functions over every '
+            'f64 in range. BOUNDED stand-ins (labelled, never counted): cancel_live_orders on two orders (only listed Active orders, p=0 never, p>=1 always), Noise(Market)Agent::update and the momentum '
+            'carry-over on one trader with every callee replaced by a recording stub that is its contract. Known finding: clamp to an off-grid Price::MAX aborts simulations.',
+            'Kani loop-free full-domain harnesses (proof) + bounded Kani harnesses with contract stubs (stand-in)', KANI_NOTE),
+    'C17': ('other', 'BOUNDED only (nothing counted as proved): Kani on the real MomentumAgent / MomentumMarketAgent::update, every callee stubbed by its contract, one trader, 2-4 calls, tanh replaced by a '
+            'sign-preserving saturating model: falling mid -> exactly one sell, rising -> one buy (+ one buy limit order at ratio >= 1), flat -> nothing, signal carried over / reset by the documented recursion '
+            '(decay 1/2). A refutation is accompanied by a witness search on the real agents with real generators.', 'bounded Kani harnesses on the real update bodies with contract stubs', KANI_NOTE),
 }
 NA = {
     'C09': 'Determinism across runs/processes is a 2-safety property of the whole program including rand, rand_distr, kdam and libm; function contracts can only restate `result == f(inputs)`, and both verifiers already assume executable Rust has no hidden inputs, so a contract proof would be vacuous about exactly the nondeterminism sources the property is about (DESIGN.md 5, C09).',
